@@ -12,6 +12,7 @@ import (
 	"sort"
 	"strconv"
 	"strings"
+	"sync"
 	"time"
 )
 
@@ -249,6 +250,11 @@ func runCheck(prop, repo, verif, tier string) int {
 	known := loadKnownFindings(filepath.Join(verif, "KNOWN_FINDINGS.txt"))
 	replayDir := filepath.Join(verif, "replays", prop)
 	os.RemoveAll(replayDir)
+	var cross map[string]interface{}
+	var crossBad []string
+	if tier == "thorough" {
+		cross, crossBad = crossCheck(reps)
+	}
 
 	nObl, nOK := 0, 0
 	byBackend := map[string]int{}
@@ -393,6 +399,10 @@ func runCheck(prop, repo, verif, tier string) int {
 		knownLines = append(knownLines, bk...)
 		boundedSummary = bs
 	}
+	for _, b := range crossBad {
+		fmt.Println("ENGINE-ERROR solvers disagree on the same query:", b)
+		exitCode = 2
+	}
 	for _, v := range violations {
 		fmt.Println(v)
 	}
@@ -436,6 +446,9 @@ func runCheck(prop, repo, verif, tier string) int {
 			"checks": boundedSummary,
 		}
 		ev.Assumptions = append(ev.Assumptions, "A-ORACLE: the hand-written exact-rational planar oracle of /verif/govrac (validated by its own unit tests) defines the expected answers of the bounded stand-in")
+	}
+	if cross != nil {
+		ev.Coverage["second_solver_cross_check"] = cross
 	}
 	extraEvidence(w, prop, tier, ev.Coverage)
 	os.MkdirAll(filepath.Dir(evPath), 0o755)
@@ -701,4 +714,75 @@ func (w *World) runKnownTest(kf *KnownFinding) (bool, string) {
 		return res(false, "recorded input no longer fails")
 	}
 	return res(false, "known-finding test did not run: "+firstLines(so, 5))
+}
+
+// crossCheck (thorough tier): every discharged obligation is re-submitted, with the very SMT text that was proved, to a solver of a
+// different family (z3 -> cvc5, cvc5 -> z3 5.1); an `unsat` from both reduces the trust placed in a single solver (A-SOLVER).
+// `unknown`/timeout of the second solver is not a failure; `sat` on the same text is a solver disagreement.
+func crossCheck(reps []*FuncReport) (map[string]interface{}, []string) {
+	type job struct {
+		name, file, first string
+	}
+	var jobs []job
+	for _, r := range reps {
+		for _, x := range r.Results {
+			if x.O.Cover || !x.OK || x.R.File == "" || x.R.Status != "unsat" {
+				continue
+			}
+			jobs = append(jobs, job{x.O.Name, x.R.File, x.R.Solver})
+		}
+	}
+	var mu sync.Mutex
+	confirmed, undecided := 0, 0
+	bySecond := map[string]int{}
+	var bad []string
+	var wg sync.WaitGroup
+	sem := make(chan struct{}, 16)
+	for _, j := range jobs {
+		wg.Add(1)
+		go func(j job) {
+			defer wg.Done()
+			sem <- struct{}{}
+			defer func() { <-sem }()
+			var order []solverSpec
+			if strings.HasPrefix(j.first, "cvc5") {
+				order = []solverSpec{solvers[0], solvers[1]}
+			} else {
+				order = []solverSpec{solvers[2]}
+				if strings.HasPrefix(j.first, "z3-new") {
+					order = append(order, solvers[1])
+				} else {
+					order = append(order, solvers[0])
+				}
+			}
+			status, who := "unknown", ""
+			for _, sp := range order {
+				r := runSolver(context.Background(), sp, j.file, 15000)
+				if r.Status == "unsat" || r.Status == "sat" {
+					status, who = r.Status, sp.name
+					break
+				}
+			}
+			mu.Lock()
+			defer mu.Unlock()
+			switch status {
+			case "unsat":
+				confirmed++
+				bySecond[who]++
+			case "sat":
+				bad = append(bad, fmt.Sprintf("%s: %s said unsat, %s says sat on %s", j.name, j.first, who, j.file))
+			default:
+				undecided++
+			}
+		}(j)
+	}
+	wg.Wait()
+	sort.Strings(bad)
+	return map[string]interface{}{
+		"discharged_obligations_resubmitted": len(jobs),
+		"confirmed_unsat_by_a_second_solver": confirmed,
+		"second_solver_undecided_in_15s":     undecided,
+		"disagreements":                      len(bad),
+		"by_second_solver":                   bySecond,
+	}, bad
 }
